@@ -378,6 +378,92 @@ def oracle_accept(c, stats):
     return []
 
 
+
+# ------------------------------------------------------------------ declared input encodings / --encoding of the text output
+
+IN_ENC = {"utf-8": "utf-8", "iso-8859-2": "iso8859_2", "cp-1250": "cp1250", "windows-1250": "cp1250",
+          "cp-1251": "cp1251", "windows-1251": "cp1251", "us-ascii": "ascii", "x-unknown-enc": "ascii"}
+OUT_ENC = {"utf-8": "utf-8", "iso-8859-2": "iso8859_2", "iso-8859-2-flat": None, "cp-1250": "cp1250", "cp-1251": "cp1251"}
+
+
+def repertoire(codec):
+    """letters above 0x7f that the reference codec (Python) defines for a single-byte encoding"""
+    out = []
+    for b in range(0x80, 0x100):
+        try:
+            ch = bytes([b]).decode(codec)
+        except UnicodeDecodeError:
+            continue
+        if ch.isalpha():
+            out.append(ch)
+    return out
+
+
+REPERTOIRE = {k: repertoire(v) for k, v in IN_ENC.items() if v not in ("utf-8", "ascii")}
+ENC_GKF = """<?xml version="1.0"%s?>
+<gama-local xmlns="http://www.gnu.org/software/gama/gama-local">
+<network><description>%s</description>
+<points-observations>
+<point id="%s" x="0" y="0" fix="xy"/><point id="B" x="100" y="0" fix="xy"/><point id="P" adj="xy"/>
+<obs from="%s"><distance to="P" val="70.72" stdev="5"/><direction to="B" val="0" stdev="10"/><direction to="P" val="50.001" stdev="10"/></obs>
+<obs from="B"><distance to="P" val="70.70" stdev="5"/><direction to="P" val="350.0" stdev="10"/><direction to="%s" val="0" stdev="10"/></obs>
+</points-observations></network></gama-local>
+"""
+
+
+@st.composite
+def enc_case(draw):
+    enc = draw(st.sampled_from(sorted(IN_ENC)))
+    ascii_words = st.text(alphabet="abcXYZ019", min_size=1, max_size=4)
+    if enc in REPERTOIRE:
+        hi = st.text(alphabet=REPERTOIRE[enc], min_size=1, max_size=6)
+    elif enc == "utf-8":
+        hi = st.text(alphabet=st.characters(min_codepoint=0x80, max_codepoint=0x2fff, whitelist_categories=("Lu", "Ll", "Lo")), min_size=1, max_size=6)
+    else:
+        hi = ascii_words
+    words = draw(st.lists(st.one_of(hi, hi, ascii_words), min_size=1, max_size=4))
+    pid = "A" + draw(hi)
+    return {"enc": enc, "declare": draw(st.booleans()) if enc == "utf-8" else True, "words": words, "id": pid,
+            "out": draw(st.sampled_from(sorted(OUT_ENC)))}
+
+
+def oracle_encodings(c, stats):
+    """The byte->character tables of the declared encodings and of --encoding are checked against the reference codecs:
+    no sanitizer report (the tables are fixed-size arrays), the description and the point id arrive in the (UTF-8) XML
+    output as written, and come out of the text output in the requested encoding when they are representable in it."""
+    desc = " ".join(c["words"])
+    decl = ' encoding="%s"' % c["enc"] if c["declare"] else ""
+    doc = (ENC_GKF % (decl, desc, c["id"], c["id"], c["id"])).encode(IN_ENC[c["enc"]])
+    stats.label("enc.in." + c["enc"], "enc.out." + c["out"])
+    res = netrun.gama_local(doc, ["--encoding", c["out"]], outputs=("xml", "text"), raw=True)
+    if res["crash"] is not None:
+        return ["encoding.crash: %s %s (input %s, output %s)" % (res["crash"]["kind"], res["crash"]["frame"], c["enc"], c["out"])]
+    fails = []
+    try:
+        x = adjxml.parse_adjustment((res["xml"] or b"").decode("utf-8"))
+    except (adjxml.NotWellFormed, UnicodeDecodeError) as e:
+        return ["encoding.xml_not_well_formed: %s (input %s)" % (e, c["enc"])]
+    if "error" in x:
+        return ["encoding.refused: %s" % x["error"]["descriptions"]]
+    got = " ".join((x.get("description") or "").split())
+    if got != desc:
+        fails.append("encoding.decode: description declared %s read as %r, written %r" % (c["enc"], got, desc))
+    ids = [a["id"] for k in ("fixed", "adjusted") for a in x["coordinates"][k]]
+    if c["id"] not in ids:
+        fails.append("encoding.decode_id: point id %r declared %s appears as %r" % (c["id"], c["enc"], ids))
+    codec = OUT_ENC[c["out"]]
+    if codec is not None and res["text"] is not None:
+        try:
+            want = desc.encode(codec)
+        except UnicodeEncodeError:
+            want = None
+            stats.label("enc.out.not_representable")
+        if want is not None:
+            stats.label("enc.out.representable")
+            if want not in res["text"]:
+                fails.append("encoding.encode: description %r not found in the text output as %s bytes" % (desc, c["out"]))
+    return fails
+
 # ------------------------------------------------------------------ companion tools on damaged result files
 
 def tools_case_strategy():
@@ -441,6 +527,8 @@ PARTS = [
     Part("fuzz_gkf", custom=run_fuzz_gkf, n={"quick": 1, "thorough": 1}),
     Part("fuzz_data", custom=run_fuzz_data, n={"quick": 1, "thorough": 1}),
     Part("fuzz_adjres", custom=run_fuzz_adjres, n={"quick": 1, "thorough": 1}),
+    Part("encodings", strategy=enc_case, oracle=oracle_encodings, n={"quick": 1500, "thorough": 20000},
+         nontrivial=lambda c: any(ord(ch) > 0x7f for ch in " ".join(c["words"]) + c["id"])),
     Part("tools", strategy=tools_case_strategy, oracle=oracle_tools, n={"quick": 1500, "thorough": 15000},
          nontrivial=lambda c: c["kind"] != "intact"),
 ]
